@@ -36,7 +36,8 @@ class Src:
     def __next__(self):
         if self.i >= len(self.items):
             if self.fail:
-                raise Boom('source failed after %d' % self.i)
+                # an ordinary exception, or what Ctrl-C / sys.exit() in the producer raise: the stream ends all the same
+                raise {'interrupt': KeyboardInterrupt, 'exit': SystemExit}.get(self.fail, Boom)('source failed after %d' % self.i)
             raise StopIteration
         self.i += 1
         return self.items[self.i - 1]
@@ -44,7 +45,13 @@ class Src:
 
 def zoo(rng):
     return [None, 0, '', [], {}, (), b'', 1.5, 'text', [1, [2, [3]]], {'a': (1, 2)}, np.arange(5), np.array([]), np.zeros((3, 2)),
-            np.arange(rng.choice([1000, 50000])).astype(float), 'x' * rng.choice([10, 100000]), (None, None), float('inf'), True, 10 ** 30]
+            np.arange(rng.choice([1000, 50000])).astype(float), 'x' * rng.choice([10, 100000]), (None, None), float('inf'), True, 10 ** 30,
+            # arrays that are more than their numeric buffer: any special-cased array writer must keep all of this
+            np.ma.masked_array([1.0, 2.0, 3.0], mask=[False, True, False]), np.array([1, 'a', None, (2, 3)], dtype=object),
+            np.array([(1, 2.5), (3, 4.5)], dtype=[('a', 'i4'), ('b', 'f8')]), np.rec.array([(1, 2.0)], dtype=[('x', 'i8'), ('y', 'f4')]),
+            np.arange(12.0).reshape(3, 4)[::2, ::3], np.asfortranarray(np.arange(6).reshape(2, 3)), np.float32(1.5), np.array(7),
+            np.array(['ab', 'cde']), np.array([b'x'], dtype='S3'), np.array(['2020-01-01'], dtype='datetime64[D]'),
+            np.arange(4).astype('>i2'), np.bool_(True), np.zeros((0, 3)), np.array([[1 + 2j]])]
 
 
 def sized_element(target):
@@ -60,19 +67,62 @@ def sized_element(target):
     return None
 
 
-def same_after_pickle(a, b):
+def deep_equal(a, b):
+    """structural equality of two values: same types all the way down, same numbers (bytes for arrays, nan = nan)"""
+    if type(a) is not type(b):
+        return False
+    if isinstance(a, np.ma.MaskedArray):
+        return a.dtype == b.dtype and a.shape == b.shape and deep_equal(np.asarray(a.data), np.asarray(b.data)) \
+            and deep_equal(np.ma.getmaskarray(a), np.ma.getmaskarray(b))
+    if isinstance(a, np.ndarray):
+        if a.dtype != b.dtype or a.shape != b.shape:
+            return False
+        if a.dtype == object:
+            return all(deep_equal(x, y) for x, y in zip(a.ravel().tolist(), b.ravel().tolist()))
+        return np.ascontiguousarray(a).tobytes() == np.ascontiguousarray(b).tobytes()
+    if isinstance(a, np.generic):
+        return a.dtype == b.dtype and a.tobytes() == b.tobytes()
+    if isinstance(a, (list, tuple)):
+        return len(a) == len(b) and all(deep_equal(x, y) for x, y in zip(a, b))
+    if isinstance(a, dict):
+        return list(a) == list(b) and all(deep_equal(a[k], b[k]) for k in a)
+    if isinstance(a, float):
+        return a == b or (a != a and b != b)
+    return a == b
+
+
+def same_after_pickle(back, orig):
+    """back (replayed from the archive) is what orig is after one trip through pickle"""
     try:
-        return pickle.dumps(a) == pickle.dumps(b)
+        if pickle.dumps(back) == pickle.dumps(orig):
+            return True
+        return deep_equal(pickle.loads(pickle.dumps(orig)), back)
     except Exception:  # noqa
         return False
 
 
-def run_case(ctx, tmp, case_id, elems, stop, k, level, target):
+def run_case(ctx, tmp, case_id, elems, stop, k, level, target, exc='boom'):
+    cwd = os.getcwd()
+    try:
+        return _run_case(ctx, tmp, case_id, elems, stop, k, level, target, exc)
+    finally:
+        os.chdir(cwd)
+
+
+def _run_case(ctx, tmp, case_id, elems, stop, k, level, target, exc):
     from generatorpipeline.streamfunctions import savestream, loadstream
     n = len(elems)
-    fail = stop == 'srcfail'
+    fail = exc if stop == 'srcfail' else False
     src = Src(elems, fail)
-    if target == 'name':
+    chdir_after = None
+    if target == 'relname':
+        # a relative file name, and a consumer that changes the working directory while the stream runs
+        os.chdir(tmp)
+        os.makedirs(os.path.join(tmp, 'elsewhere'), exist_ok=True)
+        f = 'rel_c%d.zip' % case_id
+        fobj = None
+        chdir_after = max(1, (k if stop in ('close', 'gc') else n) // 2)
+    elif target == 'name':
         f = os.path.join(tmp, 'c%d.zip' % case_id)
         fobj = None
     elif target == 'fileobj':
@@ -81,7 +131,7 @@ def run_case(ctx, tmp, case_id, elems, stop, k, level, target):
     else:
         f = io.BytesIO()
         fobj = f
-    case = dict(n=n, stop=stop, k=k, compresslevel=level, target=target,
+    case = dict(n=n, stop=stop, k=k, compresslevel=level, target=target, source_exception=exc if fail else None,
                 elements=[type(e).__name__ + (':%d' % e.size if isinstance(e, np.ndarray) else '') for e in elems])
     stream = savestream(src, f, compresslevel=level)
     hist = []
@@ -97,6 +147,8 @@ def run_case(ctx, tmp, case_id, elems, stop, k, level, target):
                 demands.append('N')
                 got.append(next(stream))
                 hist.append((src.i, len(got)))
+                if chdir_after == len(got):
+                    os.chdir(os.path.join(tmp, 'elsewhere'))
             if stop == 'close':
                 stream.close()
             else:
@@ -108,10 +160,12 @@ def run_case(ctx, tmp, case_id, elems, stop, k, level, target):
                 demands.append('N')
                 got.append(next(stream))
                 hist.append((src.i, len(got)))
+                if chdir_after == len(got):
+                    os.chdir(os.path.join(tmp, 'elsewhere'))
     except StopIteration:
         pass
-    except Boom as e:
-        raised = e
+    except (Boom, KeyboardInterrupt, SystemExit) as e:
+        raised = e          # kept alive while the archive is read (a handler that logs it, pytest's excinfo, sys.last_value do the same)
     expect_k = k if stop in ('close', 'gc') else n
     # oracle: transparent, lazy tap
     if len(got) != expect_k or any(g is not e for g, e in zip(got, elems)):
@@ -128,7 +182,7 @@ def run_case(ctx, tmp, case_id, elems, stop, k, level, target):
     try:
         if fobj is not None:
             fobj.seek(0)
-        back = list(loadstream(f))
+        back = list(loadstream(os.path.join(tmp, f) if target == 'relname' else f))
     except Exception as e:  # noqa
         ctx.fail('archive-unreadable-after-stop:' + stop, 'loadstream failed after the consumer was done (%s after %d): %r' % (stop, expect_k, e), case)
         return case, None
@@ -161,8 +215,8 @@ def check(ctx):
                 elems = [rng.choice(z) for _ in range(n)]
                 cid += 1
                 level = rng.randint(0, 9)
-                target = rng.choice(['name', 'fileobj', 'bytesio'])
-                case, r = run_case(ctx, tmp, cid, elems, stop, k, level, target)
+                target = rng.choice(['name', 'fileobj', 'bytesio', 'relname'])
+                case, r = run_case(ctx, tmp, cid, elems, stop, k, level, target, exc=rng.choice(['boom', 'boom', 'interrupt', 'exit']))
                 ctx.case((case['elements'], stop, k, level, target), stop != 'exhaust' and 1 <= k and (k < n or stop == 'srcfail'),
                          sample=case if n <= 3 else None)
                 ctx.count('stop:' + stop)
